@@ -3,7 +3,7 @@
 set -u
 cd /verif
 mkdir -p build evidence replays
-for v in verif; do tools/build_repo.sh $v || exit 1; done
+for v in verif asan; do tools/build_repo.sh $v || exit 1; done
 for d in harness/*/; do
   [ -f "$d/Makefile" ] && { make -s -C "$d" -j16 || exit 1; }
 done
